@@ -719,6 +719,175 @@ func c11WireRun(jc *JobCtx, e *Enum, g *c11Guard, m *c11WireMethod, sl int, text
 	return false
 }
 
+// ---------------------------------------------------------------- level 2d: histories on one connection
+
+var c11HistTexts = []string{
+	(strings.Repeat("word ", 100))[:500],
+	(strings.Repeat("lorem ipsum. dolor sit amet, ", 20))[:480],
+}
+var c11HistSLs = []int{0, 13, 20, 40, 100}
+
+type c11HistStep struct{ SL, Text int }
+
+// c11HistRun makes the calls of one history on a fresh connection, setting Config().SplitLen before each call;
+// it returns what each completed call wrote.
+func c11HistRun(m *c11WireMethod, steps []c11HistStep) (wrote []string, o *vx.Outcome, cerr error) {
+	o = RunSeq(vx.Options{MaxSteps: 4000000}, func(env *vx.Env) {
+		s, err := StartSession(env, "me", func(cfg *client.Config) { cfg.SplitLen = steps[0].SL }, nil)
+		if err != nil {
+			cerr = err
+			return
+		}
+		for _, st := range steps {
+			s.C.Config().SplitLen = st.SL
+			n0 := len(s.VC.Writes)
+			m.Call(s.C, c11Target, c11HistTexts[st.Text])
+			vx.Quiesce()
+			var sb strings.Builder
+			for _, w := range s.VC.Writes[n0:] {
+				sb.WriteString(w.Data)
+			}
+			wrote = append(wrote, sb.String())
+		}
+		s.End()
+	})
+	return
+}
+
+// c11HistJudge judges every completed call of a history against the SplitLen in force when it was made.
+func c11HistJudge(m *c11WireMethod, steps []c11HistStep, wrote []string) (k int, oracle, msg string) {
+	for k, b := range wrote {
+		L := c11Limit(steps[k].SL)
+		text := c11HistTexts[steps[k].Text]
+		pieces, bad := c11WirePieces(m, b)
+		if bad != "" {
+			return k, "framing", bad + "; bytes written: " + Q(c08Clip(b))
+		}
+		if o := c11Check(text, L, pieces); o != "" {
+			return k, o, c11Explain(o, L, pieces)
+		}
+	}
+	return -1, "", ""
+}
+
+func c11HistDesc(m *c11WireMethod, steps []c11HistStep) string {
+	var sb strings.Builder
+	for i, st := range steps {
+		if i > 0 {
+			sb.WriteString("; ")
+		}
+		fmt.Fprintf(&sb, "SplitLen=%d %s(text%d)", st.SL, m.Name, st.Text)
+	}
+	return sb.String()
+}
+
+// c11JobWireHistory: every history of n calls of method m on one connection, each call with one of two long
+// texts after Config().SplitLen was set to one of five values: a call's pieces depend on the SplitLen in force
+// and on its own text only, not on what was sent before.
+func c11JobWireHistory(m *c11WireMethod, n int) Job {
+	name := fmt.Sprintf("wire/%s/history/len=%d", m.Name, n)
+	return Job{Name: name, Cost: 100, Run: func(jc *JobCtx) *JobResult {
+		return c11RunGuarded(jc, name, func(e *Enum, g *c11Guard) {
+			opts := len(c11HistSLs) * len(c11HistTexts)
+			total := 1
+			for i := 0; i < n; i++ {
+				total *= opts
+			}
+			for idx := 0; idx < total; idx++ {
+				if e.TooMany() || jc.Expired() {
+					e.Incomplete(fmt.Sprintf("stopped at history %d of %d", idx, total))
+					return
+				}
+				steps := make([]c11HistStep, n)
+				var raw []interface{}
+				for i, x := n-1, idx; i >= 0; i-- {
+					steps[i] = c11HistStep{c11HistSLs[(x%opts)/len(c11HistTexts)], (x % opts) % len(c11HistTexts)}
+					x /= opts
+				}
+				for _, st := range steps {
+					raw = append(raw, []int{st.SL, st.Text})
+				}
+				g.enter(m.Name, c11Text{S: c11HistTexts[steps[n-1].Text], Period: "history"}, steps[n-1].SL)
+				wrote, o, cerr := c11HistRun(m, steps)
+				if cerr != nil {
+					e.R.Error = "connect failed in harness: " + cerr.Error()
+					return
+				}
+				e.R.Evaluations++
+				e.R.Transitions++
+				g.judged++
+				params := map[string]interface{}{"level": "wire-history", "method": m.Name, "steps": raw}
+				if o.Kind != "ok" && len(wrote) < n {
+					oracle := o.Kind
+					if oracle != "crash" {
+						oracle = "does-not-return"
+					}
+					e.Fail("wire-history", oracle, c11HistDesc(m, steps), fmt.Sprintf("call %d: execution ended with %s", len(wrote)+1, o.Kind), params)
+					continue
+				}
+				var sh uint64 = HashStringLite(m.Name)
+				for k, b := range wrote {
+					ps, _ := c11WirePieces(m, b)
+					sh = c11ShapeHash(sh, steps[k].SL, ps)
+				}
+				e.distinct[sh] = struct{}{}
+				if k, oracle, msg := c11HistJudge(m, steps, wrote); oracle != "" {
+					e.Fail("wire-history", oracle, c11HistDesc(m, steps), fmt.Sprintf("call %d of the history: %s", k+1, msg), params)
+				}
+			}
+			e.Sample(map[string]interface{}{"method": m.Name, "histories": total, "calls_each": n})
+		})
+	}}
+}
+
+func c11ReplayHistory(v *Violation) int {
+	name, _ := v.Params["method"].(string)
+	m := c11FindWire(name)
+	if m == nil {
+		fmt.Println("unknown method", name)
+		return 2
+	}
+	var steps []c11HistStep
+	if raw, ok := v.Params["steps"].([]interface{}); ok {
+		for _, x := range raw {
+			if p, ok := x.([]interface{}); ok && len(p) == 2 {
+				a, _ := p[0].(float64)
+				b, _ := p[1].(float64)
+				steps = append(steps, c11HistStep{int(a), int(b)})
+			}
+		}
+	}
+	if len(steps) == 0 {
+		fmt.Println("no steps in replay file")
+		return 2
+	}
+	wrote, o, cerr := c11HistRun(m, steps)
+	fmt.Printf("history: %s\noutcome: %s (connect error: %v)\n", c11HistDesc(m, steps), o.Kind, cerr)
+	for k, b := range wrote {
+		fmt.Printf("call %d wrote: %s\n", k+1, Q(c08Clip(b)))
+	}
+	if o.Kind != "ok" && len(wrote) < len(steps) {
+		oracle := o.Kind
+		if oracle != "crash" {
+			oracle = "does-not-return"
+		}
+		fmt.Printf("FINDING oracle=%s\n", oracle)
+		if oracle == v.Oracle {
+			fmt.Println("REPRODUCED")
+			return 1
+		}
+	}
+	if k, oracle, msg := c11HistJudge(m, steps, wrote); oracle != "" {
+		fmt.Printf("FINDING oracle=%s call %d: %s\n", oracle, k+1, msg)
+		if oracle == v.Oracle {
+			fmt.Println("REPRODUCED")
+			return 1
+		}
+	}
+	fmt.Println("NOT REPRODUCED")
+	return 0
+}
+
 // HashStringLite: FNV-1a, for tagging shape hashes with the method name.
 func HashStringLite(s string) uint64 {
 	h := uint64(1469598103934665603)
@@ -848,6 +1017,10 @@ func c11Jobs(tier string) []Job {
 		}
 		jobs = append(jobs, c11JobWireTargets(ms))
 	}
+	// (2d) wire, histories of 3 (thorough: 4) calls with SplitLen changed in between
+	for mi := range c11WireMethods {
+		jobs = append(jobs, c11JobWireHistory(&c11WireMethods[mi], pick(3, 4)))
+	}
 	// (2a) wire, short texts: method x 2-letter prefix
 	maxW := pick(9, 12)
 	for mi := range c11WireMethods {
@@ -913,6 +1086,9 @@ func c11Replay(v *Violation) int {
 		sl = int(f)
 	}
 	level, _ := v.Params["level"].(string)
+	if level == "wire-history" {
+		return c11ReplayHistory(v)
+	}
 	L := c11Limit(sl)
 	type result struct {
 		pieces []string
